@@ -73,6 +73,35 @@ theorem log1pexp_val (z : R) (h1 : -37 < z.val) (h2 : z.val ≤ 18) :
   have h1' : ¬ z.val ≤ -37 := not_le.mpr h1
   simp only [Gen.log1pexp, R.le_iff, R.neg_val, e37, e18, h1', h2, if_true, if_false, R.ln1p_val, R.exp_val]
 
+/-! special-function CDFs unfolded -/
+
+theorem InvGamma_cdf_eq (d : Gen.InvGamma R) (t : ℝ) :
+    (Gen.InvGamma.cdf_real d ⟨t⟩).val = 1 - R.incGammaR (d.scale.val / t) d.shape.val := by
+  simp only [Gen.InvGamma.cdf_real, R.incGamma_val, R.div_val, R.sub_val, one_val]
+
+theorem InvChiSquared_cdf_eq (d : Gen.InvChiSquared R) (t : ℝ) :
+    (Gen.InvChiSquared.cdf_real d ⟨t⟩).val = 1 - R.incGammaR ((1 / 2) / t) (d.v.val / 2) := by
+  simp only [Gen.InvChiSquared.cdf_real, RealLike.recip, R.incGamma_val, R.div_val, R.sub_val, R.mul_val,
+    one_val, two_val]
+  rw [div_div]
+
+theorem ScaledInvChiSquared_cdf_eq (d : Gen.ScaledInvChiSquared R) (t : ℝ) :
+    (Gen.ScaledInvChiSquared.cdf_real d ⟨t⟩).val =
+      1 - R.incGammaR ((d.v.val * d.t2.val / 2) / t) (d.v.val / 2) := by
+  simp only [Gen.ScaledInvChiSquared.cdf_real, R.incGamma_val, R.div_val, R.sub_val, R.mul_val, one_val, two_val]
+  rw [div_div]
+
+theorem Gaussian_cdf_eq (d : Gen.Gaussian R) (t : ℝ) :
+    (Gen.Gaussian.cdf_real d ⟨t⟩).val = 1 / 2 * (1 + R.erfR ((t - d.mu.val) / (d.sigma.val * Real.sqrt 2))) := by
+  simp only [Gen.Gaussian.cdf_real, R.erf_val, R.div_val, R.sub_val, R.mul_val, R.add_val, R.sqrt2_val,
+    one_val, half_val]
+
+theorem LogNormal_cdf_eq (d : Gen.LogNormal R) (t : ℝ) :
+    (Gen.LogNormal.cdf_real d ⟨t⟩).val =
+      1 / 2 * R.erfR ((Real.log t - d.mu.val) / (Real.sqrt 2 * d.sigma.val)) + 1 / 2 := by
+  simp only [Gen.LogNormal.cdf_real, mulAdd, R.erf_val, R.div_val, R.sub_val, R.mul_val, R.add_val,
+    R.sqrt2_val, R.ln_val, half_val]
+
 /-! list folds read on `R` -/
 
 /-- fold of `acc + f x` over a list, read on `R` -/
